@@ -20,7 +20,16 @@ def run(ctx):
     lib = [b for b in F.all_bodies(MQ) if "::test::" not in b.path and "::tests::" not in b.path]
     # ------------------------------------------------------------------ R06.1
     appends = [(b, c) for b in lib for c in b.calls() if c.is_trait_method("EntrySink", "append")]
-    drops = [b for b, c in appends if b.impl and (b.impl.get("trait") or "").endswith("::Drop")]
+    is_drop = lambda b: bool(b.impl) and (b.impl.get("trait") or "").endswith("::Drop")
+    drops = [b for b, c in appends if is_drop(b)]
+    # a private helper that only destructors call, exactly once on each of their paths, is part of the destructor
+    for b, c in appends:
+        if is_drop(b) or b in drops:
+            continue
+        callers = F.callers_of(b.path, crates=[MQ])
+        if callers and all(is_drop(cs.body) for cs in callers) and \
+                all(exactly_once(cs.body, [x.bb for x in callers if x.body is cs.body])[0] for cs in callers):
+            drops.append(b)
     ctx.floor("R06.1", "destructors that append to a sink", len(drops), 1)
     for b, c in appends:
         ctx.check(b in drops, "R06.1", fnkey(b) + "#append-only-in-destructor", loc(b, c.bb),
